@@ -171,11 +171,18 @@ def frontends(R, rep):
     from flow import effect_helpers
     is_out = lambda cal: cal in OUTPUTS or cal.startswith("serde_json::ser::to_string")
     out_helpers = effect_helpers(F, lambda cal: cal in OUTPUTS, ("cgt_tool", "cgt_mcp", "cgt_wasm"), P.user_written)
+    # wrappers: front-end functions that return the report of a calculation they (transitively) make; a call of a wrapper is a
+    # calculation site of its caller (`let report = self.compute()?; self.deliver(&report)`)
+    wrappers = set()
+    calc_helpers = effect_helpers(F, lambda cal: cal.endswith("calculator::calculate"), ("cgt_tool", "cgt_mcp", "cgt_wasm"), P.user_written)
+    for b in F.bodies.values():
+        if b.crate in ("cgt_tool", "cgt_mcp", "cgt_wasm") and P.user_written(F, b) and "TaxReport" in b.ret and b.id in calc_helpers:
+            wrappers.add(b.id)
     for b in F.bodies.values():
         if b.crate not in ("cgt_tool", "cgt_mcp", "cgt_wasm") or not P.user_written(F, b):
             continue
         calc = [(i, t) for i, t in b.calls() if t["callee"].endswith("calculator::calculate") or
-                (b.crate == "cgt_mcp" and t["callee"].endswith("do_calculate_report") and not b.id.endswith("do_calculate_report"))]
+                (t["callee"] in wrappers and t["callee"] != b.id)]
         if "TaxReport" in b.ret:
             continue  # a wrapper returning the report: its callers are examined
         for i, t in calc:
@@ -208,14 +215,20 @@ def frontends(R, rep):
 
 
 def _same_arm_as(b, j, i):
-    """output j is in the same command arm as calculate call i (dominated by the same multi-way switch target)"""
+    """output j happens before calculate call i in the same command: i is reachable from j, and — when the function dispatches
+    on a multi-way switch (main's sub-commands) — both sit in the same arm; a function without such a switch is one command"""
+    multi = False
     for s in b.reachable():
         sw = b.term(s)
         if sw["k"] == "switch" and len(sw["targets"]) >= 3:
-            for tgt in b.succ(s):
-                if b.dominates(tgt, i) and b.dominates(tgt, j):
+            arms = [tgt for tgt in b.succ(s) if b.dominates(tgt, i)]
+            if arms:
+                multi = True
+                if any(b.dominates(tgt, j) for tgt in arms):
                     return True
-    return False
+    if multi:
+        return False
+    return i in b.reach_from(j) and i != j
 
 
 def error_texts(R, rep):
